@@ -35,6 +35,12 @@ TAN = {  # variant -> (tangent class, group class, DoF, RepSize)
 }
 
 
+class AbsJet:
+    """|x| of a non-constant jet: only meaningful as the quantity of a precision switch"""
+    def __init__(self, jet):
+        self.jet = jet
+
+
 class AngleAxisVal:
     def __init__(self, angle, axis):
         self.angle, self.axis = angle, axis
@@ -71,10 +77,25 @@ class SeriesSym(P.PolySym):
 
     def ev(self, n, env):
         n0 = A.strip(n)
-        if isinstance(n0, dict) and n0.get("k") == "BinaryOperator" and n0.get("op") in ("<", ">", "<=", ">=") \
-                and "abs" not in sexp(n0):     # |norm - 1| vs eps is a validity / renormalisation test, not a magnitude switch
+        if isinstance(n0, dict) and n0.get("k") == "BinaryOperator" and n0.get("op") in ("<", ">", "<=", ">="):
             a = S.scalarize(P.PolySym.ev(self, n0["ch"][0], env))
             b = S.scalarize(P.PolySym.ev(self, n0["ch"][1], env))
+            if a is S.TOP or b is S.TOP:
+                return S.TOP           # e.g. |norm - 1| of symbolic data vs eps: a validity test, left to the caller
+            if isinstance(a, AbsJet):
+                a = a.jet if a.jet.vz() >= 1 else S.TOP     # |x| < thr with x vanishing at the identity: a magnitude switch on x
+            if isinstance(b, AbsJet):
+                b = b.jet if b.jet.vz() >= 1 else S.TOP
+            if a is S.TOP or b is S.TOP:
+                return S.TOP
+            def constify(x):
+                if isinstance(x, J.JetNum) and x.is_const():
+                    c0 = sp.nsimplify(x.c.get(0, sp.Integer(0)))
+                    if c0.is_Rational:
+                        return S.Aff(S.Fraction(int(c0.p), int(c0.q)))
+                return x
+            a, b = constify(a), constify(b)
+
             def symbolic(x):
                 return isinstance(x, J.JetNum) and not x.is_const()
             def threshold(x):      # a small positive constant (eps, eps_sqrt, a literal): a precision switch
@@ -109,7 +130,11 @@ class SeriesSym(P.PolySym):
                     if name in ("cos", "sin", "sqrt", "atan"):
                         return getattr(J, name)(vals[0])
                     if name == "abs":
-                        return S.TOP          # only used by validity assertions (|norm - 1| < eps): not decided here (C13)
+                        j_ = J.lift(vals[0])
+                        if j_.is_const():
+                            c0 = j_.c.get(0, sp.Integer(0))
+                            return J.JetNum({0: sp.Abs(c0)}) if c0.is_number else S.TOP
+                        return AbsJet(j_)
                 except (ValueError, ZeroDivisionError) as ex:
                     raise S.Unsupported("%s: %s" % (name, ex))
                 raise S.Unsupported("%s of a jet" % name)
@@ -167,6 +192,7 @@ def neumann_inverse(sym, m):
                 x = J.add(x, S.Aff(1), -1)
             if x.vz() < 1:
                 raise S.Unsupported("inverse() of a matrix that is not the identity at the origin")
+            x = J.JetNum(x.c, min(x.p, NEUMANN))       # only orders <= NEUMANN are used: keep the products small
             U.set(r, c, x if x.c else S.Aff(0))
     acc = S.Mat(n, n, S.Aff(0))
     for r in range(n):
